@@ -418,8 +418,17 @@ pub fn plan(prop: &str, tier: Tier) -> Option<Plan> {
                     p.phases.push(phase(&format!("C14: S1 χ_{k} header trees D={dk}"), b, tree_tasks(with_backend(header_trees(&all_hdr, &[4], k, dk, 1, &none), b))));
                 }
             }
+            {
+                // every one of the 128 ParserConfig values on both message kinds: an option of the
+                // other kind must not widen anything
+                let every: Vec<(Entry, u8)> = (0..128u8).flat_map(|c| [(Entry::ReqCfg, c), (Entry::RespCfg, c)]).collect();
+                let de = if q { 4 } else { 5 };
+                p.phases.push(phase(&format!("C14: S1 header trees under all 128 configurations on both message kinds, D={de}"), Backend::Native, tree_tasks(header_trees(&every, &[4], 1, de, 1, &none))));
+                p.bounds.push(format!("S1: header block Σ(11)^≤{de} × 128 configurations × request and response × 4 resume contexts"));
+            }
             s2::add_option_templates(&mut p, q);
-            s2::add_long_fields(&mut p, q, &BACKENDS, &["header-name", "header-value"]);
+            s2::add_long_fields(&mut p, q, &BACKENDS, &["header-name", "header-value", "dropped-line"]);
+            s2::add_field_sweeps(&mut p, q, &BACKENDS, &["dropped-line"]);
         }
         "C15" => {
             p.armed = 0;
@@ -445,6 +454,7 @@ pub fn plan(prop: &str, tier: Tier) -> Option<Plan> {
             p.phases.push(phase(&format!("C15: every node × other-kind option subsets (header D={dh2}, lines D={dl})"), Backend::Native, t));
             p.bounds.push(format!("S1: default-Complete nodes of header Σ^≤{d} / line Σ^≤{} trees × 127 other configs; all nodes of header Σ^≤{dh2} / line Σ^≤{dl} trees × 8 request (32 response) own-kind configs × 15 (3) other-kind option subsets", dl + 1));
             s2::add_config_templates(&mut p, q);
+            s2::add_config_sweeps(&mut p, q);
         }
         "C16" => {
             p.armed = 0;
@@ -470,6 +480,7 @@ pub fn plan(prop: &str, tier: Tier) -> Option<Plan> {
             p.phases.push(phase(&format!("C16: parse_headers in lock-step with request and response heads (D={})", d + 1), Backend::Native, tree_tasks(specs)));
             p.bounds.push(format!("S1: header Σ^≤{d} × 4 request + 16 response option sets × capacities 0,1,3 × 4 resume contexts, line Σ^≤{dl}; every node on all 4 entry points of its kind; parse_headers lock-step Σ^≤{}", d + 1));
             s2::add_entry_templates(&mut p, q);
+            s2::add_entry_long(&mut p, q);
         }
         "C17" => {
             p.armed = O_STORAGE;
